@@ -4,7 +4,7 @@ import random
 from fractions import Fraction as Fr
 
 from .. import families as fam
-from ..dsl import (Cfg, Sym, X, U, Z, Pg, Vg, t, T, t0, tf, nl1, nl2, at_t0, at_tf, integral, integral_control, sum_, C)
+from ..dsl import (Cfg, Spec, Sym, X, U, Z, Pg, Vg, t, T, t0, tf, nl1, nl2, at_t0, at_tf, integral, integral_control, sum_, C)
 from ..instance import Inst
 from ..match import Checker
 from ..ref.semantics import Ref
@@ -80,10 +80,15 @@ def instances(tier, seed):
                 cfg = Cfg(method, N=N, M=M, intg=intg or 'rk', grid=g, degree=degree, scheme=scheme)
                 add(fam.with_horizon(s, h), cfg)
                 n += 1
+    # several controls / several integral terms of the same shape (symbols created by ocp.control() all carry the same name)
+    for mi, (method, intg) in enumerate((('MS', 'rk'), ('SS', 'expl_euler'), ('DC', None))):
+        s = Spec(nx=2, nu=2, ode=[nl1(X(1)) * U(0) + t * X(0), X(0) - U(1) * X(1)], note='two controls, separate integral terms')
+        s.objective = [integral(X(0) * X(0)), integral(U(0) * U(0)), integral(U(1) * U(1)), integral(X(1) * X(1)) + sum_(U(0) * U(0)) + sum_(U(1) * U(1))]
+        add(fam.with_horizon(s, H[2 * mi % len(H)]), Cfg(method, N=2, M=[1, 2][mi % 2], intg=intg or 'rk', grid=fam.G_UNI, degree=2, scheme='radau'))
     # DAE with integral under collocation
     for di, s in enumerate(fam.dae_core()):
         s = copy.deepcopy(s)
-        s.objective = [integral(Z(0) * X(0) + t), at_tf(X(0)) * at_t0(X(0))]
+        s.objective = [integral(Z(0) * X(0) + t), at_tf(X(0)) * at_t0(X(0))] + ([integral(Z(0) * Z(0)), integral(Z(1) * Z(1))] if s.nz > 1 else [])
         add(fam.with_horizon(s, Hsym[di]), Cfg('DC', N=2, M=2, degree=3, scheme='radau', grid=fam.G_GEO_LOC))
     return items
 
